@@ -61,7 +61,12 @@ impl StatSlot for ConcurrencyStatSlot {
                 let metric = tc.metric();
                 match metric.concurrency_counter.get(&arg) {
                     Some(counter) => {
-                        counter.fetch_sub(1, Ordering::SeqCst);
+                        // The counter of a parameter may have been evicted from the bounded cache
+                        // and created again (at 0) while this entry was in flight: never count
+                        // below zero, a wrapped counter overflows the next concurrency check.
+                        let _ = counter.fetch_update(Ordering::SeqCst, Ordering::SeqCst, |c| {
+                            c.checked_sub(1)
+                        });
                     }
                     None => {
                         logging::debug!("[ConcurrencyStatSlot on_entry_passed] Parameter does not exist in ConcurrencyCounter., argument: {:?}", arg);
